@@ -96,6 +96,11 @@ var (
 	runStep    int           // instruction index within the current run
 	stepLimit  int           // >0: abort the run (liveness bound) when runStep exceeds it
 	crashFired int
+	// budgetFlipAt >= 0: when the current run reaches that instruction the caller's
+	// configuration changes under it: vm.MemoryBudget becomes budgetFlipTo
+	budgetFlipAt int = -1
+	budgetFlipTo int
+	budgetFlips  int
 )
 
 // InjectedCrash is the panic value used for a crash at an instruction boundary.
@@ -121,6 +126,10 @@ func installHook() {
 		opcodeSeen[op]++
 		k := runStep
 		runStep++
+		if budgetFlipAt >= 0 && k == budgetFlipAt {
+			vm.MemoryBudget = budgetFlipTo
+			budgetFlips++
+		}
 		if crashAt >= 0 && k == crashAt {
 			crashFired++
 			panic(InjectedCrash{At: k})
@@ -136,4 +145,5 @@ func beginRun(crash int, limit int) {
 	runStep = 0
 	crashAt = crash
 	stepLimit = limit
+	budgetFlipAt = -1
 }
